@@ -213,7 +213,13 @@ class Taint:
             # partial assignments into the object
             for (b, i, kind) in fn.defs().get(t[2], []):
                 if kind == "partial" and i != "term":
-                    out |= self.taint(ev.rvalue(fn.blocks[b].stmts[i]["rv"], (b, i)), depth + 1)
+                    st = fn.blocks[b].stmts[i]
+                    fields = [e.get("name") for e in st.get("dst", {}).get("p", []) if isinstance(e, dict) and "f" in e]
+                    if fields and fields[-1] in self.source_fields:
+                        # stored into a field that is secret by declaration (`cfg.seed = ..`): every read of that field is a source already;
+                        # the rest of the object does not become secret by it
+                        continue
+                    out |= self.taint(ev.rvalue(st["rv"], (b, i)), depth + 1)
             return out
         if k == "closure":
             return self._union(t[2], depth)
